@@ -204,3 +204,10 @@ Qed.
 
 (* split conjunctions without unfolding defined predicates *)
 Ltac splits := repeat match goal with |- _ /\ _ => split end.
+
+Lemma slice_upd_snoc' (l:list Z) r x : 0 <= r < len l -> slice (upd l r x) 0 (r + 1) = slice l 0 r ++ [x].
+Proof.
+  intros H. unfold slice, upd. cbn [Z.to_nat skipn]. rewrite !Z.sub_0_r.
+  replace (Z.to_nat (r + 1)) with (S (Z.to_nat r)) by lia.
+  apply firstn_succ_upd_nat. unfold len in H. lia.
+Qed.
